@@ -13,7 +13,7 @@
 (*   sched / poll / stop          handler entry points                     *)
 (*   sent id p t c                the handler gave a request to the sender *)
 (*   outcome id o k               the environment answered request id:     *)
-(*                                get:  valid | invalid | notfound | fail  *)
+(*                                get:  valid | invalid | notfound | fail* *)
 (*                                head: hdr (k = header) | invalid | multi *)
 (*                                      | fail                             *)
 (*   answer c t(ok|err) o k       caller c received a message; for get/ok  *)
@@ -33,7 +33,8 @@
 (*   request implies no connected peer of the kind its next attempt needs. *)
 (* C31 clauses: head requests go to connected trusted peers only; a head   *)
 (*   answer is given only when the round is complete and obeys the         *)
-(*   best-head rule over the round's valid single-header reports; all      *)
+(*   best-head rule over the round's valid single-header reports (every    *)
+(*   asked peer has answered or failed - there is no time limit); all      *)
 (*   waiting callers are answered in the same step with the same header    *)
 (*   (an error for one and a header for another is a different answer).    *)
 (***************************************************************************)
@@ -57,8 +58,10 @@ Waiting(m, t) == {c \in Callers : m.req[c] = t /\ c \notin m.answered /\ c \noti
 SentOf(m, c)  == {r \in m.sent : r.t = "get" /\ r.c = c}
 Outcomes(m, id) == {x \in m.out : x.id = id}
 ValidFor(m, c) == {r \in SentOf(m, c) : \E x \in Outcomes(m, r.id) : x.o = "valid"}
+\* outbound failures: ConnectionClosed, DialFailure, Timeout, UnsupportedProtocols, Io
+FailKinds == {"fail", "fail-dial", "fail-timeout", "fail-unsupported", "fail-io"}
 ErrKind(o) == IF o = "notfound" THEN "notfound" ELSE IF o = "invalid" THEN "invalid"
-              ELSE IF o = "fail" THEN "failure" ELSE "?"
+              ELSE IF o \in FailKinds THEN "failure" ELSE "?"
 
 (* best-head rule over a set of reports [id, k] *)
 Count(reports, k) == Cardinality({x \in reports : x.k = k})
